@@ -51,6 +51,11 @@ def sweep_cases(ctx: core.Ctx, rnd: random.Random, gens: list, repeats: int, *, 
             add(fname, sname, "code", by_name["B1"], {"single_line": True}, tag)
         if i % (6 if q else 1) == 0:
             add(fname, sname, "code", by_name["B1"], {"dot": "force"}, tag)
+    # a request with so many holders that the header outgrows the 4 KiB window the linter reads
+    many = [f"Holder Number {i} With A Rather Long Name Incorporated <holder{i}@example.org>" for i in range(70)]
+    for fname, sname in (("sample.py", "python"), ("sample.c", "c"), ("sample.html", "html"), ("sample.jl", "julia")):
+        add(fname, sname, "code", by_name["B1"], {"multi_line": True} if sname == "julia" else {}, "huge-header:" + fname, must=False)
+        cases[-1]["steps"] = [dict(st_, req=dict(st_["req"], holders=many)) for st_ in cases[-1]["steps"]]
     # every --style on a file of unknown type
     for sname, st in sorted(styles.items()):
         for kind in bodies:
